@@ -94,6 +94,26 @@ def check_expr_functions(a, inp, stats=None, sub='expr', vinp=None):
             if st == 'exc':
                 fail('refactor_reference', r)
             _kind_ok(a, r, 'pair', vinp, 'refactor_reference', sub)
+    else:
+        # not (exactly) boolean: the functions are still total on every accepted AST (the library hands such an input back,
+        # paired with True / as a one-element list); only the absence of internal errors and the container kind are demanded
+        st, r = core.guarded(rw.split_and, a)
+        if st == 'exc':
+            if not (type(r) is ValueError and any(n == ('lit', 'bool', False) for n in ev._walk(model))):
+                fail('split_and', r)
+        else:
+            _kind_ok(a, r, 'list-expr', vinp, 'split_and', sub)
+        for fn in ('get_conjuncts', 'get_disjuncts'):
+            st, r = core.guarded(getattr(rw, fn), a)
+            if st == 'exc':
+                fail(fn, r)
+            _kind_ok(a, r, 'list-expr', vinp, fn, sub)
+        names = sorted({n.token[1:] for n in astx.preorder(a) if astx.cname(n) == 'HplVarReference'} - _bound_names(a)) + ['Zz']
+        for alias in names:
+            st, r = core.guarded(rw.refactor_reference, a, alias)
+            if st == 'exc':
+                fail('refactor_reference', r)
+            _kind_ok(a, r, 'pair', vinp, 'refactor_reference', sub)
     # replacements
     st, r = core.guarded(rw.replace_this_with_var, a, c13.V)
     if st == 'exc':
